@@ -1,59 +1,71 @@
 (** C17 - Connection setup: address resolution and auth follow the protocol and terminate.
     Model: Conn/Addr.v (parse_dbus_addr_str, get_session_bus_path), Conn/Auth.v (auth.rs and the
     sequencing of DuplexConn::connect_to_bus against a scripted server). Specifications:
-    Conn/AddrProofs.v (unix_address, accepted_text, target), Conn/AuthProofs.v (first_line, reply,
+    Conn/AddrProofs.v (addr_grammar, unix_address, pair_ok), Conn/AuthProofs.v (first_line, reply,
     conforming, conversation, decimal_of). Examples: Conn/AuthExamples.v. *)
 From RB Require Import Base.Prelude Conn.AddrBase Conn.Addr Conn.AddrProofs Conn.Auth Conn.AuthProofs.
 
 (* ------------------------------------------------------------------ addresses *)
-(* "unix:" k=v,...,path=p,... : pairs before it carry other keys, anything may follow; resolves to
-   exactly the socket p when p exists (and fits sun_path), otherwise an error *)
+(* An address of the supported kind ([addr_grammar], Conn/AddrProofs.v): "unix:" followed by comma-separated
+   key=value pairs (keys without ',' '=' ';', values without ',' ';'), exactly one of which has the key "path"
+   or "abstract", with a non-empty value. Percent-escapes are not decoded: the value is taken literally (a path
+   written with %xx names a file that does not exist, so such an address yields an error). *)
+
+(* it resolves to exactly that socket (a path must exist; both must fit the 108-byte sun_path) *)
+Theorem C17_addr_resolves : forall exists_ addr (is_path : bool) v,
+  addr_grammar addr is_path v ->
+  parse_dbus_addr_str exists_ addr
+  = if is_path then (if exists_ v && (len v <? SUN_PATH) then Ok (Path v) else Err)
+    else (if len v <? SUN_PATH then Ok (Abstract v) else Err).
+Proof. exact addr_grammar_resolves. Qed.
+Print Assumptions C17_addr_resolves.
+
+(* exactly the strings of the grammar resolve, and to the socket they name *)
+Theorem C17_addr_only : forall exists_ addr r,
+  parse_dbus_addr_str exists_ addr = Ok r <->
+  exists (is_path : bool) v, addr_grammar addr is_path v /\ len v < SUN_PATH
+    /\ (is_path = true -> exists_ v = true) /\ r = (if is_path then Path v else Abstract v).
+Proof. exact addr_resolves_iff. Qed.
+Print Assumptions C17_addr_only.
+
+(* any other string yields an error *)
+Theorem C17_addr_other : forall exists_ addr,
+  (forall is_path v, ~ addr_grammar addr is_path v) -> parse_dbus_addr_str exists_ addr = Err.
+Proof. exact addr_other_is_error. Qed.
+Print Assumptions C17_addr_other.
+
+(* further keys in any order: before and after the socket pair *)
 Theorem C17_addr_path : forall exists_ before p after,
-  Forall pair_ok before -> Forall (fun kv => ~ sock_key (fst kv)) before -> ~ In COMMA p ->
+  Forall pair_ok (before ++ (PATH, p) :: after) ->
+  Forall (fun kv => ~ sock_key (fst kv)) before -> Forall (fun kv => ~ sock_key (fst kv)) after -> p <> [] ->
   parse_dbus_addr_str exists_ (unix_address (before ++ (PATH, p) :: after))
   = if exists_ p && (len p <? SUN_PATH) then Ok (Path p) else Err.
 Proof. exact addr_path_resolves. Qed.
 Print Assumptions C17_addr_path.
 
 Theorem C17_addr_abstract : forall exists_ before k after,
-  Forall pair_ok before -> Forall (fun kv => ~ sock_key (fst kv)) before -> ~ In COMMA k ->
+  Forall pair_ok (before ++ (ABSTRACT, k) :: after) ->
+  Forall (fun kv => ~ sock_key (fst kv)) before -> Forall (fun kv => ~ sock_key (fst kv)) after -> k <> [] ->
   parse_dbus_addr_str exists_ (unix_address (before ++ (ABSTRACT, k) :: after))
   = if len k <? SUN_PATH then Ok (Abstract k) else Err.
 Proof. exact addr_abstract_resolves. Qed.
 Print Assumptions C17_addr_abstract.
 
-(* exactly these strings resolve: "unix:", pairs without a socket key, the socket pair, then nothing
-   or a comma followed by text that is not inspected; the result is that pair's socket *)
-Theorem C17_addr_only : forall exists_ addr r,
-  parse_dbus_addr_str exists_ addr = Ok r ->
-  exists before (is_path : bool) v tail,
-    addr = accepted_text before (if is_path then PATH else ABSTRACT) v tail
-    /\ Forall pair_ok before /\ Forall (fun kv => ~ sock_key (fst kv)) before /\ ~ In COMMA v /\ tail_ok tail
-    /\ len v < SUN_PATH
-    /\ r = (if is_path then Path v else Abstract v) /\ (is_path = true -> exists_ v = true).
-Proof. exact addr_resolves_only. Qed.
-Print Assumptions C17_addr_only.
-
-Theorem C17_addr_accepted_text : forall exists_ before (is_path : bool) v tail,
-  Forall pair_ok before -> Forall (fun kv => ~ sock_key (fst kv)) before -> ~ In COMMA v -> tail_ok tail ->
-  parse_dbus_addr_str exists_ (accepted_text before (if is_path then PATH else ABSTRACT) v tail)
-  = target exists_ is_path v.
-Proof. exact addr_accepted_text_resolves. Qed.
-Print Assumptions C17_addr_accepted_text.
-
-(* the other strings the property names: no transport separator, another transport, no socket key,
-   a pair without '=' before the socket key *)
+(* the error classes by name: a ';' anywhere (address lists), no transport separator, another transport,
+   a piece without '=' anywhere in the list, and well-formed pairs of which none or more than one name a
+   socket or whose socket value is empty *)
 Theorem C17_addr_errors : forall exists_,
-  (forall addr, ~ In COLON addr -> parse_dbus_addr_str exists_ addr = Err)
+  (forall addr, In SEMICOLON addr -> parse_dbus_addr_str exists_ addr = Err)
+  /\ (forall addr, ~ In COLON addr -> parse_dbus_addr_str exists_ addr = Err)
   /\ (forall sys rest, ~ In COLON sys -> sys <> UNIX -> parse_dbus_addr_str exists_ (sys ++ COLON :: rest) = Err)
-  /\ (forall pairs, Forall pair_ok pairs -> Forall (fun kv => ~ sock_key (fst kv)) pairs ->
-        parse_dbus_addr_str exists_ (unix_address pairs) = Err)
-  /\ (forall before bad tail, Forall pair_ok before -> Forall (fun kv => ~ sock_key (fst kv)) before ->
-        ~ In EQUALS bad -> ~ In COMMA bad -> tail_ok tail ->
-        parse_dbus_addr_str exists_ (UNIX ++ COLON :: concat (map (fun kv => render kv ++ [COMMA]) before) ++ bad ++ tail) = Err).
+  /\ (forall pieces bad, Forall (fun p => ~ In COMMA p) pieces -> In bad pieces -> ~ In EQUALS bad ->
+        parse_dbus_addr_str exists_ (UNIX ++ COLON :: join COMMA pieces) = Err)
+  /\ (forall pairs, Forall pair_ok pairs -> pairs <> [] ->
+        (forall kv, filter sockb pairs <> [kv]) \/ (exists k, filter sockb pairs = [(k, [])]) ->
+        parse_dbus_addr_str exists_ (unix_address pairs) = Err).
 Proof.
-  intros e. split; [exact (addr_no_colon e)|]. split; [exact (addr_other_transport e)|].
-  split; [exact (addr_no_socket_key e)|exact (addr_pair_without_equals e)].
+  intros e. split; [exact (addr_semicolon e)|]. split; [exact (addr_no_colon e)|]. split; [exact (addr_other_transport e)|].
+  split; [exact (addr_pair_without_equals e)|exact (addr_socket_count e)].
 Qed.
 Print Assumptions C17_addr_errors.
 
